@@ -53,6 +53,7 @@ var props = []*PropDef{
 	},
 	{
 		ID:     "C03",
+		Funcs:  []string{"aztec.stuffBits"},
 		Unwind: []*Unwinder{unwAztec},
 		Tables: []string{"aztec/tables", "gf/fields"},
 		Harness: []Harness{
@@ -172,7 +173,7 @@ var props = []*PropDef{
 	},
 	{
 		ID:     "C12",
-		Funcs:  []string{"pdf417.(securitylevel).Compute"},
+		Funcs:  []string{"pdf417.(securitylevel).Compute", "aztec.stuffBits"},
 		Unwind: []*Unwinder{unwPDF, unwDM, unwQR, unwQRBlocks, unwSelect, unwAztec},
 		Only:   map[string]string{"aztec": `/(ecc-honoured|fits|words|totalbits|wordsize|stuff-wordsize)$|/pre/aztec\.generateCheckWords`},
 		Tables: []string{"qr/versionInfos", "qr/formatInfos", "dm/codeSizes", "pdf417/tables"},
@@ -182,12 +183,12 @@ var props = []*PropDef{
 			{Pkg: "pdf417", File: "c04_pdf_test.go", Run: "^TestVerifC12PDF$", Bound: boundedNote + "decoded level == requested"},
 			{Pkg: "datamatrix", File: "c02_dm_test.go", Run: "^TestVerifC12DM$", Bound: boundedNote},
 		},
-		Assumptions: []string{asmRS, "Aztec: stuffBits is abstracted by its contract (length bounds; its length is the spec function azStuffLen(bits, wordSize)); the check-word count is what generateCheckWords is asked for (its body: C17 / bounded)"},
+		Assumptions: []string{asmRS, "Aztec: stuffBits is used through its contract: the length bounds are proved [P]; that its result length is a function of (bits, wordSize) (spec function azStuffLen) is an assumed postcondition (determinism); payloads whose high-level encoding exceeds 2^29 bits are outside the verified domain; the check-word count is what generateCheckWords is asked for (its body: C17 / bounded)"},
 		Note:        "QR: [C] drawFormatInfo writes the BCH word of the row's level ([T] formatInfos) into both copies, [T] block table = ISO check-word counts. PDF417: [C] indicators carry 3*level + (rows-1) mod 3 per ISO, Compute is asked for and the symbol holds 2^(level+1) check words, which [P] are the complemented remainder of the ISO division circuit over the [T]-checked generator. DataMatrix: [C]+[T] ECC 200 counts per size. Aztec: [C] for each of the 36 explicit sizes and for every path of the automatic selection, the accepted size holds the stuffed data plus eccBits = bits*pct/100 + 11 check bits within its usable bits (ecc-honoured / fits), for all payloads and every non-negative int percentage.",
 	},
 	{
 		ID:     "C13",
-		Funcs:  []string{"datamatrix.encodeText"},
+		Funcs:  []string{"datamatrix.encodeText", "aztec.stuffBits"},
 		Unwind: []*Unwinder{unwPDF, unwSelect, unwAztec},
 		Only:   map[string]string{"aztec": `/(smallest|fits|too-large#[0-9]+)$`},
 		Tables: []string{"qr/versionInfos", "dm/codeSizes", "aztec/tables"},
@@ -197,7 +198,7 @@ var props = []*PropDef{
 			{Pkg: "aztec", File: "c03_aztec_test.go", Run: "^TestVerifC13Aztec$", Bound: boundedNote + "every smaller explicit size is refused"},
 			{Pkg: "pdf417", File: "c04_pdf_test.go", Run: "^TestVerifC13PDF$", Bound: boundedNote},
 		},
-		Assumptions: []string{"Aztec: stuffBits is abstracted by its contract; the stuffed length per word size is the uninterpreted spec function azStuffLen constrained by that contract"},
+		Assumptions: []string{"Aztec: the stuffed length per word size is the spec function azStuffLen; the bounds of stuffBits (multiple of the word size, never shorter than the input, at most ceil(n/(w-1)) words) are proved [P], that its length is a function of (bits, wordSize) is an assumed postcondition (determinism)"},
 		Note:        "PDF417: [C] for every unwound (n, level): padding < one row and 2..30 rows/columns. QR/DataMatrix: [T] tables ordered with strictly increasing capacity and [C select] the search loops of qr.findSmallestVersionInfo (symbolic bit count and level) and datamatrix.EncodeWithColor (symbolic codeword count) return the FIRST table row that fits and an error iff none does, for all inputs; first fit + ordering = smallest. Aztec: [C] on every path of the automatic selection (33 candidates unwound, all payloads and percentages) the chosen symbol fits and NO symbol of ISO 24778 with a smaller side length fits (all 36 sizes incl. full-range 1..3 layers, capacities from the independent aztecspec tables); the too-large error is returned only if none of the 36 fits.",
 	},
 	{
